@@ -167,10 +167,14 @@ def recorder_class():
         name = None
 
         def __init__(self, r, cs, log, name, function=None, haltCycle=None, convPool=None, failAt=None,
-                     counter=None, extra=None, haltValue=True, idleValue=False, restartAt=None):
+                     counter=None, extra=None, haltValue=True, idleValue=False, restartAt=None, selfOff=False):
             self.name = name
             self.function = function
             Interface.__init__(self, r, cs)
+            if selfOff:
+                # an interface that finds nothing to do for this case switches itself off in its constructor,
+                # before the operator ever sees it
+                self.enabled(False)
             self.log = log
             self.haltCycle = haltCycle
             self.convPool = convPool      # shared [list of answers, next index]
@@ -251,9 +255,10 @@ def db_recorder_class():
 class IfaceSpec:
     def __init__(self, name, enabled=True, bolForce=False, reverse=False, deferred=False, haltCycle=None,
                  coupled=False, isDb=False, haltValue=True, idleValue=False, haltRequested=True,
-                 restartAt=None):
+                 restartAt=None, selfOff=False):
         self.name = name
-        self.enabled = enabled
+        self.enabled = enabled               # the `enabled` argument of addInterface
+        self.selfOff = selfOff               # the interface switched itself off before it was attached
         self.bolForce = bolForce
         self.reverse = reverse
         self.deferred = deferred
@@ -269,7 +274,9 @@ class IfaceSpec:
 def _active(specs, event, cycle, deferredCycle):
     out = []
     for s in specs:
-        on = s.enabled or (event == "BOL" and s.bolForce)
+        # enabled = the interface's own state AND the `enabled` argument it was attached with: attaching never switches
+        # an interface on that had switched itself off (addInterface: "enabled: If false, will disable")
+        on = (s.enabled and not s.selfOff) or (event == "BOL" and s.bolForce)
         # deferred interfaces sit out beginning-of-life and the beginning-of-cycle of every cycle before
         # `deferredInterfacesCycle` (the meaning pinned by armi's own test_getActiveInterfaces)
         if s.deferred and (event == "BOL" or (event == "BOC" and cycle < deferredCycle)):
